@@ -32,7 +32,8 @@ Theorem assignable_refl : forall tc t, struct_assignable tc t t = Ok true.
 Proof. intros. unfold struct_assignable. now rewrite stype_eqb_refl. Qed.
 
 (* ------------------------------------------------ the rules themselves are reflexive *)
-(* type identifiers on which the code does not hit todo!() *)
+(* type identifiers the code can compare (TkNone, maps, strongly connected components and the
+   extended identifier are never assignable, not even from themselves) *)
 Fixpoint tid_supported (t : tid) : bool :=
   match t with
   | TkNone | TiMapSmall | TiMapLarge | TiScc | TiDefault => false
